@@ -80,7 +80,7 @@ def _align_parse(ctx, index):
     )
     # pad length = |len(args) - len(defaults)| of the same arguments object
     pad_len = None
-    for n in ast.walk(left):
+    for n in ast.walk(binop):
         if isinstance(n, ast.Call) and norm(n.func) == "islice" and len(n.args) == 2:
             pad_len = n.args[1]
         if isinstance(n, ast.BinOp) and isinstance(n.op, ast.Mult):
@@ -185,14 +185,17 @@ def _shape(ctx, index):
     rec_d = index.func("cdd.shared.ast_utils.is_argparse_description")
     pop = index.func("cdd.argparse_function.utils.emit_utils.parse_out_param")
     emit_fn = index.func("cdd.argparse_function.emit.argparse_function")
-    written = set()
-    for fn in (emit, emit_fn):
+    def written_by(fn):
+        out = set()
         for n in iter_own(fn.node):
             if isinstance(n, ast.Call) and norm(n.func).rpartition(".")[2] == "Name" and n.args and isinstance(n.args[0], ast.Constant):
-                written.add(("name", n.args[0].value))
+                out.add(("name", n.args[0].value))
             if isinstance(n, ast.Call) and norm(n.func).rpartition(".")[2] == "Attribute" and len(n.args) >= 2 and isinstance(n.args[1], ast.Constant):
-                written.add(("attr", n.args[1].value))
-    for fn, what in ((rec, "is_argparse_add_argument"), (rec_d, "is_argparse_description")):
+                out.add(("attr", n.args[1].value))
+        return out
+
+    for fn, what, writer in ((rec, "is_argparse_add_argument", emit), (rec_d, "is_argparse_description", emit_fn)):
+        written = written_by(writer)
         for kind, const in sorted(constants_compared(fn)):
             k = {"id": "name", "attr": "attr"}.get(kind)
             if k is None:
